@@ -22,7 +22,7 @@ def main(argv):
         only = os.environ.get("VF_ONLY")
         if only:
             import fnmatch
-            obs = [o for o in obs if fnmatch.fnmatch(o.oid, only)]
+            obs = [o for o in obs if any(fnmatch.fnmatch(o.oid, pat) for pat in only.split(","))]
         run.run_all(obs)
         if hasattr(mod, "after"):
             mod.after(run, tier, seed)
